@@ -124,7 +124,12 @@ def build(case):
         ua = bytes([ch]) * 0x80
         blob = tlv.enc_setting(9, 3, ua) + bytes([ch + 1]) * extra
         recs = [r for r in recs if r[0] != 9]
-        recs.insert(min(pos, len(recs)), ("RAW", blob))
+        pos = min(pos, len(recs))
+        # the continuation runs up to the next NUL byte: the following record must start with one (index < 256),
+        # otherwise the stream is mis-aligned from there on and no longer a well-formed sequence of settings
+        while pos < len(recs) and recs[pos][0] >= 256:
+            pos += 1
+        recs.insert(pos, ("RAW", blob))
         has_ua = True
     body = b""
     for r in recs:
